@@ -364,6 +364,7 @@ func (cp *CollectingProcess) decodeDataSet(dataBuffer *bytes.Buffer, obsDomainID
 	}
 
 	for dataBuffer.Len() > 0 {
+		lenBefore := dataBuffer.Len()
 		elements := make([]entities.InfoElementWithValue, 0, len(template)+cp.numExtraElements)
 		for _, ie := range template {
 			var length int
@@ -389,6 +390,9 @@ func (cp *CollectingProcess) decodeDataSet(dataBuffer *bytes.Buffer, obsDomainID
 		err = dataSet.AddRecordV2(elements, templateID)
 		if err != nil {
 			return nil, err
+		}
+		if dataBuffer.Len() == lenBefore {
+			return nil, fmt.Errorf("template %d defines zero-length records, cannot decode data set", templateID)
 		}
 	}
 	return dataSet, nil
